@@ -15,15 +15,22 @@ LEAN_MODULES = ["B2Z.Props.C18"]
 THEOREMS = [
     "B2Z.Dmg.C18_values_detects", "B2Z.Dmg.C18_values_undamaged", "B2Z.Dmg.C18_range_detects", "B2Z.Dmg.C18_range_sound",
     "B2Z.Dmg.C18_encode_detects", "B2Z.Dmg.C18_encode_undamaged",
+    "B2Z.ChunkFile.C18_chunk_prefix_rejected", "B2Z.ChunkFile.C18_chunk_intact", "B2Z.ChunkFile.C18_chunk_accepts_only_whole_frames",
+    "B2Z.ChunkFile.storedFrame_wellFramed", "B2Z.ChunkFile.C18_unrepaired_overread_counterexample",
 ]
 ASSUMPTIONS = [
-    "PARTIAL — hypothesis CodecRejectsPrefix: decoding a strict prefix of a Blosc-compressed pickle, a pickle or a JSON document raises. It is a property of numcodecs/pickle/json, not proved; the harness enumerates it (every truncation length of every file of small stores)",
+    "PARTIAL — hypothesis CodecRejectsPrefix for chunk_index (pickle) and metadata.json (JSON): decoding a strict prefix raises. It is a property of pickle/json, not proved; the harness enumerates it (every truncation length of every file of small stores). For chunk files it is no longer a hypothesis (repair F12): read_chunk refuses a file whose size differs from its Blosc header, proved for every decompressor (C18_chunk_prefix_rejected)",
+    "chunk files are written as one Blosc frame whose header bytes 12-15 hold the frame length (Blosc 1 format; checked on every real chunk file by the frame correspondence)",
     "opening a deleted file raises (OS)",
 ]
 RULE = ("finished ICF stores of generated inputs (several partitions and chunks per field); every data-bearing file x {deleted, truncated "
         "to EVERY shorter length} with a read of the affected field, and x {deleted, sampled truncations} with a full encode; range "
-        "reads compared with the model's set of opened files; non-trivial = a truncation to a non-zero length")
-LEVEL_TEXT = ("Lean (PARTIAL): under the explicit hypothesis that decoding any strict prefix fails, every whole-column read opens every "
+        "reads compared with the model's set of opened files; every truncation (and header-size edit) of every chunk file read through "
+        "read_chunk right after an intact chunk of the same size, verdict compared with Model.ChunkFile.readChunk; "
+        "non-trivial = a truncation to a non-zero length")
+LEVEL_TEXT = ("Lean (PARTIAL): every strict prefix of a chunk file is refused by read_chunk's size check whatever the decompressor "
+              "would do (C18_chunk_prefix_rejected, for all codecs and memory contents; F12 counterexample for the unrepaired reader); "
+              "under the explicit hypothesis that decoding a strict prefix of a chunk_index or metadata.json fails, every whole-column read opens every "
               "file of the field (C18_values_detects), every range read opens every chunk holding a record of the range and its "
               "partition index (C18_range_detects), and an encode — reading an exact cover of the records (C11) — opens every chunk, "
               "so any damaged chunk, chunk index or metadata file makes it fail (C18_encode_detects); undamaged reads return exactly "
@@ -55,19 +62,24 @@ def canon(v):
                                    else np.asarray(v, dtype=np.float32).view(np.uint32).tolist())
 
 
-def one_store(ctx, spec, work, tag):
+def one_store(ctx, spec, work, tag, need_partitions=1):
     from bio2zarr import vcf2zarr
     rng = ctx.rng
-    path = vcfgen.materialise(spec, pathlib.Path(work) / tag, "vcf.gz+tbi", block_size=300)
+    path = vcfgen.materialise(spec, pathlib.Path(work) / tag, "vcf.gz+tbi", block_size=rng.choice([120, 300]))
     icf = pathlib.Path(work) / f"{tag}.icf"
     convlib.explode(icf, [path], partitions=rng.choice([2, 3, 4]), column_chunk_size=rng.choice([0.0002, 0.0005]))
     store = vcf2zarr.IntermediateColumnarFormat(icf)
+    if store.num_partitions < need_partitions:
+        shutil.rmtree(icf, ignore_errors=True)
+        return False
+    ctx.count(f"stores_with_{min(store.num_partitions, 3)}{'+' if store.num_partitions >= 3 else ''}_partitions")
     orig = {name: [canon(v) for v in f.values] for name, f in store.fields.items()}
     n = store.num_records
     inp0 = {"vcf_spec": spec}
     files = sorted(p for p in icf.rglob("*") if p.is_file())
     data_files = [p for p in files if p.name not in ("header.txt",)]
     exhaustive = ctx.thorough or len(data_files) <= 80
+    remnant = pathlib.Path(work) / f"{tag}.remnant"
     for p in data_files:
         rel = str(p.relative_to(icf))
         content = p.read_bytes()
@@ -88,6 +100,40 @@ def one_store(ctx, spec, work, tag):
             inp = {**inp0, "file": rel, "damage": kind, "length": k, "original_length": len(content)}
             ctx.case((tag, rel, kind, k), kind == "truncated" and (k or 0) > 0)
             ctx.count(kind)
+            # (0) chunk files: the framing check of read_chunk against Model/ChunkFile.readChunk.  A chunk of the same
+            # size (the intact content) is read just before, so that a decoder running past the end of a truncated buffer
+            # finds plausible bytes there (F12)
+            if kind == "truncated" and p.name not in ("chunk_index", "metadata.json"):
+                fld0 = store.fields[affected[0]]
+                variants = [("prefix", content[:k])]
+                if k == len(content) - 1 and len(content) >= 16:
+                    # whole file with a header declaring another size
+                    for d in (1, -1, 256):
+                        cb = int.from_bytes(content[12:16], "little") + d
+                        variants.append((f"header size {d:+d}", content[:12] + cb.to_bytes(4, "little") + content[16:]))
+                    variants.append(("whole file", content))
+                for vname, buff in variants:
+                    p.write_bytes(buff)
+                    remnant.write_bytes(content)
+                    try:
+                        fld0.read_chunk(remnant)
+                        got = fld0.read_chunk(p)
+                        real_accepts = True
+                    except Exception:  # noqa: BLE001
+                        real_accepts = False
+                    ctx.count("frame_checked")
+                    if ctx.driver_ok:
+                        m = ctx.driver.ask({"op": "chunk.read", "buff": list(buff)})
+                        if m["accept"] != real_accepts:
+                            ctx.disagree(f"read_chunk of {rel} ({vname}, {len(buff)} of {len(content)} bytes): real "
+                                         f"{'accepts' if real_accepts else 'raises'}, Model.ChunkFile.readChunk "
+                                         f"{'accepts' if m['accept'] else 'refuses'}", {**inp, "variant": vname}, m, real_accepts)
+                    if real_accepts and vname == "prefix":      # (a changed header is not a truncation: correspondence only)
+                        same = [canon(v) for v in got] == [canon(v) for v in fld0.read_chunk(remnant)]
+                        ctx.violate(f"{rel}: read_chunk of a damaged chunk file ({vname}, {len(buff)} of {len(content)} bytes) did not raise "
+                                    f"after a chunk of the same size had been read (returned {'the original' if same else 'different'} values)",
+                                    {**inp, "variant": vname}, "error", "values")
+                p.write_bytes(content[:k])
             # (1) reading the affected field
             for fname in affected:
                 # both read paths: the whole-column property and the (range) iterator that encode uses
@@ -151,16 +197,26 @@ def one_store(ctx, spec, work, tag):
     ctx.sample({"records": n, "partitions": store.num_partitions, "files": len(data_files),
                 "exhaustive_truncation": exhaustive, "POS_chunks": structure(store, "POS")}, limit=3)
     shutil.rmtree(icf, ignore_errors=True)
+    return True
 
 
 def run(ctx):
     work = common.scratch_dir("c18-")
     try:
         for k in range(4 if ctx.thorough else 1):
-            spec = vcfgen.simple_file(ctx.rng, nrec=ctx.rng.choice([6, 9]), ncontig=1, samples=ctx.rng.choice([0, 2]), unused_contigs=False,
-                                      span=3000, long_refs=True) if k % 2 == 0 else vcfgen.rich_file(ctx.rng, nrec=8, nsamples=2, ncontig=1)
-            if spec["records"]:
-                one_store(ctx, spec, work, f"d{k}")
+            if k % 2 == 0:
+                # several partitions (records spread over index windows and BGZF blocks), several chunks per partition
+                for _try in range(12):
+                    spec = vcfgen.simple_file(ctx.rng, nrec=ctx.rng.choice([8, 10]), ncontig=ctx.rng.choice([1, 2]), samples=ctx.rng.choice([0, 2]),
+                                              unused_contigs=False, span=ctx.rng.choice([200_000, 2_000_000]), long_refs=True)
+                    if one_store(ctx, spec, work, f"d{k}", need_partitions=2):
+                        break
+                else:
+                    raise common.Infra("generator produced no multi-partition store in 12 attempts")
+            else:
+                spec = vcfgen.rich_file(ctx.rng, nrec=8, nsamples=2, ncontig=1)
+                if spec["records"]:
+                    one_store(ctx, spec, work, f"d{k}")
     finally:
         shutil.rmtree(work, ignore_errors=True)
 
